@@ -17,7 +17,9 @@ CLAIMED = {
  "C14": dict(
    text="Proof. Per configuration (capacity N, data width, stack mode) a kernel-checked theorem: for ALL admissible input sequences (every interleaving of push/pop/reset, all data values) "
         "the parsed VHDL of a wrapper around the REAL std.Fifo / std.Stack has the same trace (data out, empty, full, size) as the abstract bounded queue / stack specification. "
-        "Configurations are enumerated (N and w up to the listed bounds); sequences are proved, not sampled.",
+        "Configurations are enumerated (N and w up to the listed bounds); sequences are proved, not sampled. "
+        "For ALL capacities: Gallina models of the ring buffer / stack as coded (Models/Ring.v: index arithmetic of _next_index, power-of-two and not) are proved to refine the abstract queue (N >= 2) / stack (N >= 1, both modes) "
+        "for every admissible input sequence (C14_fifo_ring_refines_queue_all_N, C14_stack_model_refines_stack_all_N, with state abstraction and invariant), and each compiled configuration is also proved equal to the as-coded model.",
    technique="Rocq proof: verified product-reachability checker (explore_sound) against an abstract queue/stack specification per compiled configuration",
    design_ref="DESIGN.md §6 C14"),
  "C15": dict(
@@ -28,7 +30,9 @@ CLAIMED = {
  "C16": dict(
    text="Proof. wait_for/Waiter.wait_for (constant and run-time, first/middle/loop positions): theorem per program against the coroutine reference semantics extended with 'resume exactly n clocks later'; "
         "DelayLine/delayed, continuous_counter, ClockDivider, ToggleSignal, debounce: theorem per parameter setting against specification machines, for all input/enable sequences. "
-        "Parameters enumerated to the listed bounds. Duration.count_periods: differential on integral ratios only (binary64 not modelled).",
+        "Parameters enumerated to the listed bounds. For ALL parameter values: as-coded Gallina models (Models/TimingAll.v) of DelayLine, continuous_counter, ToggleSignal and ClockDivider are proved equal to the specification machines and "
+        "their period / duty / delay / restart behaviour is proved exactly (C16_delay_line_exact_all_n, C16_counter_period_exact_all_limits, C16_toggle_period_duty_exact_all_durations, C16_divider_*), each compiled configuration is tied to the as-coded model. "
+        "Duration.count_periods: differential on integral ratios only (binary64 not modelled).",
    technique="Rocq proof: verified product-reachability checker per compiled utility/parameter; reference machines in Gallina",
    design_ref="DESIGN.md §6 C16"),
  "C17": dict(
